@@ -266,6 +266,15 @@ class World(object):
                         sab.note("%s: hook %s calls context.abort()" % (it.loc(node), name))
                         it.emit(sab, ("abort",))
                         outs.append((sab, "val", None))
+                    # (a') a before-hook of a feature/rule/scenario skips its element (element.skip() / mark_skipped())
+                    if s2.ghost.get("hooks_may_skip") and isinstance(name, str) and name.startswith("before_") and \
+                            name not in ("before_all", "before_step") and isinstance(tgt, Ref):
+                        ss = s2.fork()
+                        it.emit(ss, ("hook", name, tgt.oid, False))
+                        ss.wobj(tgt).fields["should_skip"] = True
+                        ss.ghost["hook_skipped_element"] = True
+                        ss.note("%s: hook %s calls skip() on its element and returns" % (it.loc(node), name))
+                        outs.append((ss, "val", None))
                     # (b) raises Exception: contained
                     sb = s2.fork()
                     sb.note("%s: hook %s raises an Exception" % (it.loc(node), name))
